@@ -74,6 +74,9 @@ def gen_batch(rng, t, big):
         n = 1 + rng.below(16 if big else 6)
     hosts = "".join(HOSTCH[rng.below(NHOST)] for _ in range(n))
     b = "%d%s%s%d:%s" % (t, mode, sev, rng.below(2), hosts)
+    if rng.chance(1, 2):
+        # initialisation of the caller's struct gaicb outside the API fields
+        b += "~" + rng.choice("zfacdee")
     if mode == "N" and sev in "TA" and rng.chance(1, 3):
         # chained look-up: the callback itself submits a follow-up GAI_NOWAIT batch
         b += "+" + rng.choice("n0TT") + "".join(HOSTCH[rng.below(NHOST)] for _ in range(1 + rng.below(4)))
@@ -109,7 +112,7 @@ def gen_stream(rng):
         sev = rng.choice("AATSB0")
         hosts = "".join(HOSTCH[rng.below(NHOST)] for _ in range(n))
         toks.append("w%d=%d" % (t, 2 + rng.below(3)))
-        toks.append("%dN%s0:%s*%d" % (t, sev, hosts, 120 + rng.below(200)))
+        toks.append("%dN%s0:%s%s*%d" % (t, sev, hosts, rng.choice(["", "", "~z", "~a", "~c", "~e"]), 120 + rng.below(200)))
     return "scn %d %d %s" % (rng.next() % 1000000007, rng.choice([0, 0, 1]), " ".join(toks))
 
 
@@ -122,7 +125,7 @@ def batches_of(line):
 
 
 def bsize(b):
-    return len(b.partition("+")[0].partition("*")[0]) - 5
+    return len(re.split(r"[~+*]", b)[0]) - 5
 
 
 def scn_shape(line):
@@ -264,7 +267,7 @@ def shrink_scn(ck, hbin, drv, scn, env, cls, tries=3):
             elif "+" in b:
                 nb = b.partition("+")[0]
             elif bsize(b) > 1:
-                nb = b[:5] + b[5:5 + max(1, bsize(b) // 2)]
+                nb = b[:5] + b[5:5 + max(1, bsize(b) // 2)] + b[5 + bsize(b):]
             else:
                 continue
             if True:
@@ -328,6 +331,11 @@ def run(ck):
         "the calling thread's signal mask (non-trivial: SIGUSR2, SIGRTMIN+14 and the signos of its blocked+sigtimedwait "
         "batches blocked) is identical before and after EVERY getaddrinfo_a call, including the first GAI_NOWAIT call of each "
         "fresh process (the one that creates the resolver context) and calls made from callbacks; not part of the Lean model"]
+    ck.cov["monitored_frame_conditions"].append(
+        "the result of a request depends on its API fields ar_name/ar_service/ar_request alone: the caller's struct gaicb is "
+        "handed in zeroed, filled with 0xff / 0xa5 bytes, as a value copy of an in-flight request (_state == EAI_INPROGRESS), "
+        "as a value copy of a completed request, or as the very objects of an earlier completed batch (resubmission); "
+        "not part of the Lean model (items are fresh per batch there)")
     ck.cov["rule"] = ("a case = one scenario (1..4 submitter threads started together, 1..6 getaddrinfo_a calls each, batches of "
                       "1..16 numeric-host requests, GAI_WAIT/GAI_NOWAIT, sevp NULL/SIGEV_NONE/SIGEV_SIGNAL (handler, or blocked + sigtimedwait)/SIGEV_THREAD, callbacks that submit a follow-up batch, "
                       "perturbation level 0..3) executed once under a seeded perturbed schedule in a fresh process and its event "
